@@ -67,6 +67,11 @@ CLAIMS.update({
              text="Which invalid configuration yields which documented error is proved for the model of Build and checked exactly on the real code; rejected calls are invisible to later valid operations.",
              note=TB),
 })
+CLAIMS.update({
+ "C12": dict(category="proof", technique="Lean 4 theorems over a field: uniqueness of the LU solve, equality of Factor;Solve across the four LU variants x CSR/CSC x any L, same logical Jacobian on every pattern, error norm layout-independent (order is a permutation), one attempt and the whole rosSolve agree across built configurations in lockstep; forcing/Jacobian/solve equivariance under species reordering; + cross-configuration runs of the real code compared per species",
+             text="In exact arithmetic the concentrations, step history and counters of a Rosenbrock solve do not depend on layout, storage order or LU variant (C12_solve_config_indep); reordering equivariance is proved for forcing, Jacobian and the linear solve. The rounded form (same concentrations up to rounding, same history) is measured on the real code over the configuration cross product. Partial: rounding not modelled; whole-solve equivariance under reordering not proved.",
+             note=TB),
+})
 NOT_APPLICABLE = {}
 _ALL = ["C%02d" % i for i in range(1, 21)]
 for _p in _ALL:
